@@ -1,4 +1,7 @@
 import RsddModel.Driver.BddStream
+import RsddModel.Driver.RingStream
+import RsddModel.Driver.TblStream
+import RsddModel.Driver.WmcStream
 /-!
 # Line-protocol driver
 
@@ -15,6 +18,10 @@ def judge (line : String) : String :=
   | some (stream, kvs, rhs) =>
     match stream with
     | "bdd" => checkBddLine kvs rhs
+    | "ring" => checkRingLine kvs rhs
+    | "tbl" => checkTblLine kvs rhs
+    | "lru" => checkLruLine kvs rhs
+    | "wmc" => checkWmcLine kvs rhs
     | _ => s!"FAIL PARSE unknown stream {stream}"
 
 partial def loop (h : IO.FS.Stream) : IO Unit := do
